@@ -92,6 +92,7 @@ Inductive op :=
 | AddHeaders (n : nat)          (* t.AddHeaders(n items): first, repeated, shorter or longer; the table grows to n columns and never shrinks *)
 | Touch (o : owner)             (* something done to / around an owner that exists and that is NOT a set: Update() after
                                    mutating the item, String(), a CSV / HTML / JSON render, Headers(), a %#v dump *)
+| AddSeparator                  (* t.AddSeparator(): a new row of the table without cells; rows are owners, separators included *)
 | NewCellOf (o : owner).        (* c := tabular.NewCell(the cell value): a new detached cell around a cell; its own properties are empty *)
 
 (* Observation after every step: the step's own result, then for every watched
